@@ -187,6 +187,17 @@ def templates(insn):
     return t
 
 
+def all_templates(insn):
+    """constants=/alias route and literal-numeral route (@markers)"""
+    out = []
+    for src, mp in templates(insn):
+        out.append((src, mp))
+        if any(how == 'const' for how, _ in mp.values()):
+            src2 = re.sub(r'\b(RA|RB|RC|K)\b', r'@\1@', src)
+            out.append((src2, {o: ('marker', nm) for o, (how, nm) in mp.items()}))
+    return out
+
+
 def declare_text(p, insn, mapping, widths):
     ops = declare(p, insn, widths)
     constants, markers = {}, {}
@@ -211,7 +222,7 @@ def text_task(prop, m, widths, compress, known):
     insn = isa.T[m]
     pl = Pipeline()
     prof = common.FuncProfile()
-    for ti, (src, mapping) in enumerate(templates(insn)):
+    for ti, (src, mapping) in enumerate(all_templates(insn)):
         x = core.Explorer(timeout_ms=60000)
         n_acc = n_ref = 0
 
